@@ -1112,3 +1112,53 @@ func ruleVarsOnly(r *Run) {
 		r.undecided("(*path).search/params", sh.fn.Pos(), "no parameter construction found in search")
 	}
 }
+
+func init() {
+	register(&Rule{Name: "SEP-CHECK", Floor: 1,
+		Doc: "in path.search variables are tried only where the separator token in front of the segment is a '/' (a ':' introduces the verb, which is matched as a literal only)",
+		Run: ruleSepCheck})
+}
+
+func ruleSepCheck(r *Run) {
+	p := r.P
+	sh := p.searchShape()
+	if sh == nil || len(sh.varElems) == 0 {
+		r.missing("the variable loop of (*path).search")
+		return
+	}
+	typF := p.StructField("token", "typ")
+	slash, ok := p.tokenConst("tokenSlash")
+	if !ok {
+		r.missing("const tokenSlash")
+		return
+	}
+	toks := sh.fn.Params[1]
+	good := false
+	for _, g := range guardsOf(sh.varElems[0].Block()) {
+		bo, isB := g.Cond.(*ssa.BinOp)
+		if !isB {
+			continue
+		}
+		// toks[0].typ compared with tokenSlash
+		u, isU := bo.X.(*ssa.UnOp)
+		if !isU {
+			continue
+		}
+		fa, isF := u.X.(*ssa.FieldAddr)
+		if !isF || fieldOfAddr(fa) != typF {
+			continue
+		}
+		ia, isI := fa.X.(*ssa.IndexAddr)
+		if !isI || ia.X != ssa.Value(toks) {
+			continue
+		}
+		if k, isC := constInt(ia.Index); !isC || k != 0 {
+			continue
+		}
+		if k, isC := constInt(bo.Y); isC && k == slash && ((bo.Op == token.EQL && g.True) || (bo.Op == token.NEQ && !g.True)) {
+			good = true
+		}
+	}
+	r.check(good, "(*path).search/variables-only-after-slash", sh.varElems[0].Pos(), "the variable loop runs only where toks[0] is a '/'",
+		"the variable loop is entered whatever the separator token is: GET /v1/messages:123 matches the template /v1/messages/{message_id} (a ':' is accepted where the template has '/'), so a request reaches a method whose template does not cover its path")
+}
